@@ -9,24 +9,24 @@ props = [json.loads(l) for l in open(os.path.join(ROOT, "properties.jsonl"))]
 TEXT = {
  "C01": ("random multi-client histories through the real in-process server (memdb) with real clients; oracle: no failing sync/attach, byte-identical replicas after a quiescent round, clone==root, final-round-order twin; failures shrink to a replayable program", "property-based testing (rapid): generated programs-as-data, metamorphic twin run"),
  "C02": ("generated histories under snapshot interval/threshold 1..6 with late attachers, cache purge/remove and tail edits on snapshot-fed replicas; differential oracle: every server rebuild == from-scratch log replay, snapshot-fed == change-fed replicas, and (for causally ordered histories) == a no-snapshot twin run", "property-based testing (rapid): differential against log replay + twin run"),
- "C03": ("the identical generated program is run with GC off and GC on (same exclusion decisions); any failing sync/rebuild or content difference is a violation; known findings F2, F48 excluded by construction", "property-based testing (rapid): differential twin (GC on vs off)"),
- "C04": ("recorded request/response history of real clients (incl. lost responses, push-only) checked against the stored log: gap-free 1..N, per-actor clientSeq order, exact delivery, monotone checkpoints; parallel part under -race with a duplicate-request peer", "property-based testing (rapid): history invariant over recorded traffic; parallel workloads"),
- "C05": ("every storage event and every response of every sync step of generated programs is faulted once (enumerated per program), with immediate and deferred retry; log uniqueness, convergence and counter equality with the fault-free twin", "fault enumeration over generated programs (rapid) with a database decorator"),
- "C06": ("clock causality checked at creation time of every local change against harness-tracked applied clocks (log-derived for snapshots); stored-log clock invariants; minimum vector of every response bounded by what attached clients acknowledged (tracked client-side)", "property-based testing (rapid): history invariants over recorded traffic"),
+ "C03": ("the identical generated program is run with GC off and GC on (same exclusion decisions); any failing sync/rebuild or content difference is a violation; known findings F2, F48 excluded by construction; schedules include lost responses and edits made while the sync request is in flight, staggered-purge and in-flight episodes (snapshot-served laggard)", "property-based testing (rapid): differential twin (GC on vs off)"),
+ "C04": ("recorded request/response history of real clients (incl. lost responses, push-only) checked against the stored log: gap-free 1..N, per-actor clientSeq order, exact delivery, monotone checkpoints; parallel part under -race with a duplicate-request peer; part inflight: two requests of one client in flight together under a schedule the harness owns (park points via lock hook H3 and the DB decorator)", "property-based testing (rapid): history invariant over recorded traffic; parallel workloads; owned two-request schedules"),
+ "C05": ("every storage event and every response of every sync step of generated programs is faulted once (enumerated per program), with immediate and deferred retry; log uniqueness, convergence and counter equality with the fault-free twin; part inflight: the repetition is sent while the original is still in flight (owned schedule)", "fault enumeration over generated programs (rapid) with a database decorator; owned two-request schedules"),
+ "C06": ("clock causality checked at creation time of every local change against harness-tracked applied clocks (log-derived for snapshots); stored-log clock invariants; minimum vector of every response bounded by what attached clients acknowledged (tracked client-side); strata: GC-free attachments, edits made while a sync is in flight, orphan stratum (all clients detach; lamport rules only)", "property-based testing (rapid): history invariants over recorded traffic"),
  "C07": ("model-based: every editing call on non-pristine replicas (tombstones, split nodes, dead slots from a generated two-replica history, snapshot round trips, safe GC) compared with plain Go models (UTF-16 slice + attributes, slice, map, wrap-around ints, XML splice) and index/path round trips; substrate trees vs slice models; small-scope enumerations in thorough", "property-based testing (rapid): reference models + small-scope enumeration"),
- "C08": ("generated histories with failing Updates (error, panic, schema, size) at drawn positions, remote packs, snapshots, safe GC, undo/redo; clone==root after every step and full pre-state equality around a failed Update", "property-based testing (rapid): invariant + before/after equality"),
+ "C08": ("generated histories with failing Updates (error, panic, schema, size) at drawn positions, remote packs, snapshots, safe GC, undo/redo; clone==root after every step and full pre-state equality around a failed Update; alphabet incl. YSON entry points, dedup counters, tree split/merge/index styles, up to 3 edits per callback", "property-based testing (rapid): invariant + before/after equality"),
  "C09": ("behavioural round-trip equivalence of every pack/snapshot/vector/stored row produced by generated histories (direct world vs wire world incl. physical node order and a metamorphic tail), structured protobuf mutants and native fuzz targets fed to the 8 decoders: value or error, never panic/crash/hang", "property-based testing (rapid) round trip + structured mutation; native go fuzzing (thorough)"),
  "C10": ("generated history -> compaction through the real cluster RPC (refused while attached, forced, all-detached, empty content, second compaction) -> stale sync/detach, fresh attach; epoch, content, error code and log-row oracles", "property-based testing (rapid): scenario oracle over generated histories"),
- "C11": ("words over a 24-letter lifecycle alphabet sent as raw RPCs, exhaustive up to length 4/5 (canonical under renaming) and random 6..10; reference automaton from the lifecycle document decides accept/reject; stored-row, removed-flag, status and GC-probe oracles", "small-scope exhaustive enumeration + rapid, reference automaton"),
+ "C11": ("words over a 28-letter lifecycle alphabet (+ PushOnly in random words) sent as raw RPCs, exhaustive up to length 4/5 (canonical under renaming) and random 6..10; reference automaton from the lifecycle document decides accept/reject; stored-row, removed-flag, status and GC-probe oracles", "small-scope exhaustive enumeration + rapid, reference automaton"),
  "C12": ("histories mixing presence writes with edits, attach options, detach/deactivate/late attach and snapshots; replicas agree on exactly the attached actors with each actor's own view; presenceless documents store/return/snapshot nothing", "property-based testing (rapid): convergence + server-side invariants"),
  "C13": ("all 64 procedures from the service descriptors x generated identifier picks x 12 credentials over raw Connect; victim state byte-identical, no planted secret in any response, admin/cluster credentials enforced, rotated keys dead; owner's calls on a control project for non-vacuity", "property-based testing (rapid) over an enumerated procedure set"),
  "C14": ("stack model of normalised (before, after) contents over the content alphabet with nested undo/redo on replicas carrying tombstones; robustness stratum; peer application of produced changes; small-scope enumeration in thorough", "property-based testing (rapid): stack model + enumeration"),
- "C15": ("enumerated sub-scope (406 200 words: 2 clients, one edit each, undo/redo, all interleavings, <=3 syncs) + random strata incl. undo after GC; C01 oracle; F6/F10/F11/F48 excluded by construction", "small-scope exhaustive enumeration + rapid"),
+ "C15": ("enumerated sub-scope (406 200 words: 2 clients, one edit each, undo/redo, all interleavings, <=3 syncs) + random strata incl. undo after GC, staggered undo, serial multi-writer histories with multi-operation updates, style-only histories; C01 oracle on content; F6/F10/F11/F33/F48/F49 excluded by construction", "small-scope exhaustive enumeration + rapid"),
  "C16": ("generated parallel workloads (clients x documents, background compaction/history views/housekeeping, snapshot storms) under the race detector with a supervising parent process; no race, no deadlock (watchdog + goroutine dump), C01/C04 oracles on the outcome, no goroutine leak; lock-discipline recorder on every named-lock event (hook H3: per-goroutine order doc->pull->attachment->push, no re-acquisition) with seeded yield injection at lock boundaries and storage calls; generated three-request schedules owned through the hook (park/second/writer/release) that must all return", "property-based testing (rapid) of parallel workloads and owned schedules under -race, lock-order invariant over the recorded lock events"),
- "C17": ("generated concurrent subscribe/unsubscribe/publish scripts directly on PubSub under -race with entry/exit stamps; every draining subscriber is told (or closed) about publishes after its Subscribe; no leak, no panic; unsubscribe-vs-subscribe race loop", "property-based testing (rapid) of concurrent scripts under -race"),
+ "C17": ("generated concurrent subscribe/unsubscribe/publish scripts directly on PubSub under -race with entry/exit stamps; every draining subscriber is told (or closed) about publishes after its Subscribe; stall episodes (pruned subscribers must see their channel closed); churn; no leak, no panic; unsubscribe-vs-subscribe race loop", "property-based testing (rapid) of concurrent scripts under -race"),
  "C18": ("generated YSON literals (hostile strings, all primitives, counters incl. dedup registers, attributed text/trees) and reachable documents: SetYSON(FromCRDT(d)) round trip, stored-change round trip, textual Unmarshal(Marshal), server revision restore and compaction", "property-based testing (rapid): grammar-based generation + round trips"),
- "C19": ("upstream's five operation x range matrices as data x both sync orders x optional third snapshot-fed client = 6368 named cases through the real server, exhaustive in both tiers", "exhaustive enumeration of a finite case matrix"),
- "C20": ("ChangeStore vs ground-truth table with holes, fetcher faults and a covered-set model; LRU caches vs reference models; snapshot cache end-to-end: warm-cache builds and history views == log replay", "property-based testing (rapid): reference models"),
+ "C19": ("upstream's five operation x range matrices as data x both push orders x clock arrangements/roles (4 quick, 6 thorough) x third snapshot-fed client at every cut (none / after both pushes / between the pushes) = 38 208 (quick) / 57 312 (thorough) named cases through the real server, each tier exhaustive over its declared space", "exhaustive enumeration of a finite case matrix"),
+ "C20": ("ChangeStore vs ground-truth table with holes, fetcher faults and a covered-set model; LRU caches vs reference models; snapshot cache end-to-end: warm-cache builds and history views (incl. sequences beyond the head) == log replay, compaction steps", "property-based testing (rapid): reference models"),
 }
 ENGINE = {"C07": "replica-models", "C08": "replica-models", "C09": "replica-models", "C14": "replica-models", "C18": "replica-models",
           "C20": "replica-models", "C16": "schedule", "C17": "schedule"}
